@@ -332,6 +332,30 @@ def run(ctx):
                  '"h", so the property is unaffected') if _variant_gap(
                      cm) else None
     queue_rebinding(ctx)
+    # the receiver learns how many descriptors a message owns from its
+    # UNIX_FDS header field: the field must be read whatever precedes it (an
+    # unknown field code skips that field only - C03.D3, re-reported)
+    from . import c03 as _c03
+
+    class _Reader:
+        prog = ctx.prog
+        tier = ctx.tier
+        extra = {}
+
+        def ob(self, rule, where, slot, ok, msg, detail=None,
+               nontrivial=True, loc=None):
+            if slot == 'unknown-code-skips-one-field':
+                ctx.ob('C20.D3', where, 'header:' + slot, ok,
+                       '[the UNIX_FDS count is a header field of its '
+                       'message] ' + msg, detail, nontrivial, loc)
+            return ok
+
+        def floor(self, *a):
+            pass
+
+        def advisory(self, *a):
+            pass
+    _c03.reader_rules(_Reader(), _c03.message_classes(ctx.prog))
     ctx.floor('C20.D1', 4)
     ctx.floor('C20.D2', 7)
     ctx.floor('C20.D3', 4)
